@@ -292,7 +292,12 @@ impl Table {
         ingredient: IngredientIndex,
         memo_types: Arc<MemoTableTypes>,
     ) -> PageIndex {
-        PageIndex::new(self.pages.push(Page::new::<T>(ingredient, memo_types)))
+        let page = PageIndex::new(self.pages.push(Page::new::<T>(ingredient, memo_types)));
+        #[cfg(salsa_verif)]
+        crate::verif_trace::emit_with("alloc", "push", |_, o| {
+            o.push_str(&format!("{} {}", ingredient.as_u32(), page.0))
+        });
+        page
     }
 
     /// Allocate an uninitialized page.
@@ -392,6 +397,7 @@ impl Table {
         self.push_page::<T>(ingredient, memo_types())
     }
 
+    #[cfg(not(salsa_verif))]
     fn take_non_full_page(&self, ingredient: IngredientIndex) -> Option<PageIndex> {
         self.non_full_pages
             .lock()
@@ -399,12 +405,36 @@ impl Table {
             .and_then(Vec::pop)
     }
 
+    #[cfg(not(salsa_verif))]
     pub(crate) fn record_unfilled_page(&self, ingredient: IngredientIndex, page: PageIndex) {
         self.non_full_pages
             .lock()
             .entry(ingredient)
             .or_default()
             .push(page);
+    }
+
+    /// `take_non_full_page` with a trace line emitted while the lock is held.
+    #[cfg(salsa_verif)]
+    fn take_non_full_page(&self, ingredient: IngredientIndex) -> Option<PageIndex> {
+        let mut non_full_pages = self.non_full_pages.lock();
+        let page = non_full_pages.get_mut(&ingredient).and_then(Vec::pop);
+        if let Some(page) = page {
+            crate::verif_trace::emit_with("alloc", "take", |_, o| {
+                o.push_str(&format!("{} {}", ingredient.as_u32(), page.0))
+            });
+        }
+        page
+    }
+
+    /// `record_unfilled_page` with a trace line emitted while the lock is held.
+    #[cfg(salsa_verif)]
+    pub(crate) fn record_unfilled_page(&self, ingredient: IngredientIndex, page: PageIndex) {
+        let mut non_full_pages = self.non_full_pages.lock();
+        non_full_pages.entry(ingredient).or_default().push(page);
+        crate::verif_trace::emit_with("alloc", "record", |_, o| {
+            o.push_str(&format!("{} {}", ingredient.as_u32(), page.0))
+        });
     }
 }
 
@@ -497,6 +527,15 @@ impl<'db, T: Slot> PageView<'db, T> {
 
         // Update the length now that we have initialized the value.
         self.0.allocated.store(index + 1, Ordering::Release);
+        #[cfg(salsa_verif)]
+        crate::verif_trace::emit_with("alloc", "slot", |_, o| {
+            o.push_str(&format!(
+                "{} {} {index} {index} {}",
+                self.0.ingredient.as_u32(),
+                page.0,
+                index + 1
+            ))
+        });
 
         Ok((id, value))
     }
